@@ -17,9 +17,10 @@ def Task.inb : Task → Bool
   | .recv .. => true
   | _ => false
 
-/-- application senders send NEW messages (not SequenceReset, no PossDupFlag=Y) -/
+/-- application senders send NEW messages (not SequenceReset, no PossDupFlag=Y) – or messages of any kind
+(also ones that carry their own number) whose text is outside latin-1 and is therefore refused -/
 def Task.wf : Task → Bool
-  | .send _ m => isNew m
+  | .send _ m => isNew m || unencodable m
   | _ => true
 
 def flagOf (ts : List Task) (j : Nat) : Bool :=
@@ -29,7 +30,11 @@ def flagOf (ts : List Task) (j : Nat) : Bool :=
 
 theorem Task.body_ok (sr : Msg → Bool) (t : Task) (h : t.wf = true) : ROk t.inb (t.body sr) := by
   cases t with
-  | send env m => exact sendMsgR_ok env h
+  | send env m =>
+    simp only [Task.wf, Bool.or_eq_true] at h
+    rcases h with h | h
+    · exact sendMsgR_ok env h
+    · exact sendMsgR_ok_unencodable env h
   | tick env => exact tickBodyR_ok env
   | recv env m => exact processMessageR_ok env sr m
 
